@@ -5,6 +5,8 @@ import (
 	"fmt"
 	"strings"
 	"sync/atomic"
+	"verif/harness/gram"
+	"verif/harness/xplore"
 
 	"github.com/influxdata/influxql"
 
@@ -352,6 +354,94 @@ func c05parserLevel(text string) []ev.Finding {
 	return fs
 }
 
+// c05errorPosLog: the position quoted in a parse error is the position of the token it names. The tokens are the
+// ones the parser itself obtained (hook log), so the comparison is between the error and the scanner's own report
+// for that token: the recorded position defects of the scanner cancel out, a parser that quotes another token's
+// position does not.
+func c05errorPosLog(text string) []ev.Finding {
+	var log []influxql.VerifToken
+	var err error
+	if p, _ := try(func() {
+		ps := influxql.NewParser(strings.NewReader(text))
+		ps.VerifLogTokens()
+		ps.VerifSetBudget(40 * (len(text) + 8))
+		defer func() { log = ps.VerifTokens() }()
+		_, err = ps.ParseQuery()
+	}); p != nil {
+		return nil
+	}
+	perr, ok := err.(*influxql.ParseError)
+	if !ok || perr.Found == "" || perr.Message != "" {
+		return nil
+	}
+	var candidates []string
+	for _, t := range log {
+		name := t.Lit
+		if name == "" {
+			name = t.Tok.String()
+		}
+		if name == perr.Found {
+			if t.Pos == perr.Pos {
+				return nil
+			}
+			candidates = append(candidates, fmt.Sprintf("%d:%d", t.Pos.Line, t.Pos.Char))
+		}
+	}
+	if len(candidates) == 0 {
+		return nil
+	}
+	return []ev.Finding{{Sig: "parse-error-position-is-not-the-token-position", Witness: fmt.Sprintf("%q", text),
+		Detail: fmt.Sprintf("the error names %q at line %d char %d (zero based); the parser obtained tokens spelled like that at %v only", perr.Found, perr.Pos.Line, perr.Pos.Char, candidates),
+		Case:   c05Case{Bytes: []byte(text), Text: "parse-error-log", Regex: []int{-3}}, Rank: len(text)}}
+}
+
+// c05editAlpha: what is put in place of, or in front of, a token to provoke a parse error at every position.
+var c05editAlpha = []string{"a", "SELECT", "(", ")", ",", "'s'", "1", "=", "\n"}
+
+// c05editBody: every statement of the grammar model within one deviation x every token position x {delete,
+// replace, insert}: the parse error, if any, must quote its token's position; the tokens must tile.
+func c05editBody(c *xplore.Ctx) (text string, form string, fs []ev.Finding, skipped bool) {
+	g := gram.New(c)
+	g.NoValueAlts = true
+	spec := gram.Statement(g)
+	if g.InvalidWhy != "" {
+		return "", spec.Form, nil, true
+	}
+	ps := gram.RenderPieces(nil, spec.Toks)
+	pos := c.Free(len(ps) + 1)
+	kind := c.Free(3) // 0 delete, 1 replace, 2 insert before
+	if (kind != 2 && pos == len(ps)) || (kind == 0 && len(ps) == 0) {
+		return "", spec.Form, nil, true
+	}
+	sub := ""
+	if kind != 0 {
+		sub = c05editAlpha[c.Free(len(c05editAlpha))]
+	}
+	var b strings.Builder
+	for i, p := range ps {
+		if i == pos {
+			switch kind {
+			case 0:
+				continue
+			case 1:
+				b.WriteString(p.Gap + sub)
+				continue
+			case 2:
+				b.WriteString(p.Gap + sub + " " + p.Text)
+				continue
+			}
+		}
+		b.WriteString(p.Gap + p.Text)
+	}
+	if kind == 2 && pos == len(ps) {
+		b.WriteString(" " + sub)
+	}
+	text = b.String()
+	fs = append(fs, c05errorPosLog(text)...)
+	fs = append(fs, c05parserLevel(text)...)
+	return text, spec.Form, fs, false
+}
+
 func init() {
 	register(&Check{ID: "C05", Run: c05run, Replay: func(raw json.RawMessage) []ev.Finding {
 		var c c05Case
@@ -363,6 +453,9 @@ func init() {
 		}
 		if c.Text == "parser-level" {
 			return c05parserLevel(string(c.Bytes))
+		}
+		if c.Text == "parse-error-log" {
+			return c05errorPosLog(string(c.Bytes))
 		}
 		f, _, _ := c05evalOne(c)
 		return f
@@ -436,6 +529,12 @@ func c05run(r *ev.Run) {
 			}
 		}
 	})
+	// parse errors at every token position of every statement form
+	eb := 1
+	if th {
+		eb = 2
+	}
+	runGrammar(r, []boundSet{{fmt.Sprintf("token edits for error positions: struct<=%d x every position x {delete, replace, insert} x %d substitutes", eb, len(c05editAlpha)), []int{eb, 0, 0}}}, c05editBody)
 	r.Set("parser_level_texts", atomic.LoadInt64(&ptexts))
 	r.Set("parser_contexts", len(c05contexts))
 	if th {
